@@ -20,6 +20,7 @@ List of built-in functions: https://docs.python.org/3/library/functions.html
 
 import inspect
 
+from malt.operators import variables
 from malt.utils import type_registry
 
 
@@ -73,9 +74,39 @@ def _find_originating_frame(caller_fn_scope, innermost=True):
   return result
 
 
+def _originating_locals(caller_fn_scope):
+  """Returns the local variables of the function owning `caller_fn_scope`.
+
+  Control flow bodies are separate generated functions whose frames only hold
+  the names they mention. The view that the user's code had is obtained by
+  layering every such frame of this activation over the frame of the function
+  itself, innermost last.
+  """
+  frames = []
+  ctx_frame = inspect.currentframe()
+  while ctx_frame is not None:
+    if ctx_frame.f_locals.get(caller_fn_scope.name, None) is caller_fn_scope:
+      frames.append(ctx_frame)
+    ctx_frame = ctx_frame.f_back
+
+  assert frames, (
+      'the conversion process should ensure the caller_fn_scope is always'
+      ' found somewhere on the call stack')
+
+  result = {}
+  for frame in reversed(frames):
+    for name, value in frame.f_locals.items():
+      if isinstance(value, variables.Undefined):
+        # Placeholder of a variable that is not bound at this point.
+        result.pop(name, None)
+      else:
+        result[name] = value
+  return result
+
+
 def locals_in_original_context(caller_fn_scope):
   """Executes the locals function in the context of a specified function."""
-  return _find_originating_frame(caller_fn_scope, innermost=True).f_locals
+  return _originating_locals(caller_fn_scope)
 
 
 def globals_in_original_context(caller_fn_scope):
@@ -93,7 +124,7 @@ def eval_in_original_context(f, args, caller_fn_scope):
   args = (
       args[0],
       ctx_frame.f_globals if len(args) < 2 else args[1],
-      ctx_frame.f_locals if len(args) < 3 else args[2],
+      _originating_locals(caller_fn_scope) if len(args) < 3 else args[2],
   )
   return f(*args)
 
